@@ -126,6 +126,9 @@ class Interval(Duration, Generic[_T]):
     def __init__(self, start: _T, end: _T, absolute: bool = False) -> None:
         super().__init__()
 
+        # precise_diff() is always handed plain date/datetime values, also
+        # for endpoints given as native objects (a pendulum DateTime shifts
+        # by elapsed time where the helpers expect wall-clock arithmetic)
         _start: _T
         if not isinstance(start, pendulum.Date):
             if isinstance(start, datetime):
@@ -133,25 +136,23 @@ class Interval(Duration, Generic[_T]):
             else:
                 start = cast(_T, pendulum.date(start.year, start.month, start.day))
 
-            _start = start
+        if isinstance(start, pendulum.DateTime):
+            _start = cast(
+                _T,
+                datetime(
+                    start.year,
+                    start.month,
+                    start.day,
+                    start.hour,
+                    start.minute,
+                    start.second,
+                    start.microsecond,
+                    tzinfo=start.tzinfo,
+                    fold=start.fold,
+                ),
+            )
         else:
-            if isinstance(start, pendulum.DateTime):
-                _start = cast(
-                    _T,
-                    datetime(
-                        start.year,
-                        start.month,
-                        start.day,
-                        start.hour,
-                        start.minute,
-                        start.second,
-                        start.microsecond,
-                        tzinfo=start.tzinfo,
-                        fold=start.fold,
-                    ),
-                )
-            else:
-                _start = cast(_T, date(start.year, start.month, start.day))
+            _start = cast(_T, date(start.year, start.month, start.day))
 
         _end: _T
         if not isinstance(end, pendulum.Date):
@@ -160,25 +161,23 @@ class Interval(Duration, Generic[_T]):
             else:
                 end = cast(_T, pendulum.date(end.year, end.month, end.day))
 
-            _end = end
+        if isinstance(end, pendulum.DateTime):
+            _end = cast(
+                _T,
+                datetime(
+                    end.year,
+                    end.month,
+                    end.day,
+                    end.hour,
+                    end.minute,
+                    end.second,
+                    end.microsecond,
+                    tzinfo=end.tzinfo,
+                    fold=end.fold,
+                ),
+            )
         else:
-            if isinstance(end, pendulum.DateTime):
-                _end = cast(
-                    _T,
-                    datetime(
-                        end.year,
-                        end.month,
-                        end.day,
-                        end.hour,
-                        end.minute,
-                        end.second,
-                        end.microsecond,
-                        tzinfo=end.tzinfo,
-                        fold=end.fold,
-                    ),
-                )
-            else:
-                _end = cast(_T, date(end.year, end.month, end.day))
+            _end = cast(_T, date(end.year, end.month, end.day))
 
         self._invert = False
         if start > end:
